@@ -59,6 +59,10 @@ fn gen_stream(stream: &str, n: u64, seed: u64) {
         "opt" | "optill" => for _ in 0..n { let d = gen::gen_env(&mut r); let depth = 1 + r.below(4) as u32;
             let e = tree::gen_opt_tree(&mut r, depth, stream == "optill"); writeln!(w, "opt {} {}", d.show(), show_expr(&e)).unwrap(); },
         // deep ill-formed trees (nesting 1..=64) for the totality streams: `deep:<stream>`
+        st if st.starts_with("chain:") => { let kind = &st[6..]; for _ in 0..n {
+            let len = if r.chance(1, 4) { 990 + r.below(30) as u32 } else { 200 + r.below(2300) as u32 };
+            let e = gen::gen_chain_tree(&mut r, len); let d = if r.chance(1, 2) { gen::table_env() } else { gen::gen_env(&mut r) };
+            writeln!(w, "{} {} {}", kind, d.show(), show_expr(&e)).unwrap(); } }
         st if st.starts_with("deep:") || st.starts_with("vdeep:") || st.starts_with("spine:") => { let vd = st.starts_with("vdeep:"); let sp = st.starts_with("spine:"); let kind = &st[if vd || sp { 6 } else { 5 }..]; for _ in 0..n {
             // spine: regular chains of 1..300 levels, with every multiple of 32 +-1 over-represented (where a depth guard would sit)
             let depth = if sp { if r.chance(1, 3) { (32 * (1 + r.below(9)) + r.below(3)).saturating_sub(1) as u32 } else { 1 + r.below(300) as u32 } } else { 1 + r.below(if vd { 260 } else { 64 }) as u32 };
